@@ -1,30 +1,381 @@
-//! Consumer groups, users, sessions (filled in by the GRP / AUTH families).
+//! Consumer groups (C08), stored offsets of groups (C07) and the connection-level bookkeeping they need.
 
 use crate::harness::*;
+use crate::model::*;
 use crate::ops::*;
 use crate::world::Job;
 use iggy::client::*;
 use iggy::consumer::Consumer;
 use iggy::error::IggyError;
 use iggy::models::messages::PolledMessages;
+use std::collections::{BTreeMap, BTreeSet};
 
-pub async fn step_grp(_h: &mut Harness, _op: &Op) {}
+fn ready(h: &Harness, c: usize) -> bool {
+    h.model.sessions.get(c).map(|s| s.connected && s.user != 0).unwrap_or(false) && h.clients.get(c).map(|x| x.is_some()).unwrap_or(false)
+}
+
+pub async fn step_grp(h: &mut Harness, op: &Op) {
+    match op {
+        Op::CreateGroup { c, stream, topic, id, name } => create_group(h, *c, stream, topic, *id, name).await,
+        Op::DeleteGroup { c, stream, topic, group } => delete_group(h, *c, stream, topic, group).await,
+        Op::JoinGroup { c, stream, topic, group } => join_group(h, *c, stream, topic, group).await,
+        Op::LeaveGroup { c, stream, topic, group } => leave_group(h, *c, stream, topic, group).await,
+        Op::GetGroups { c, stream, topic } => {
+            if ready(h, *c) {
+                if let Some((sid, tid)) = h.model.topic_ids(stream, topic) {
+                    check_groups_of_topic(h, *c, sid, tid).await;
+                }
+            }
+        }
+        Op::GetGroup { c, stream, topic, group } => {
+            if ready(h, *c) {
+                let result = h.clients[*c].as_ref().unwrap().get_consumer_group(&stream.to_identifier(), &topic.to_identifier(), &group.to_identifier()).await;
+                let exists = h.model.topic(stream, topic).and_then(|t| Model::group_id(t, group)).is_some();
+                match (result, exists) {
+                    (Ok(Some(_)), true) | (Ok(None), false) | (Err(_), false) => {}
+                    (Ok(Some(d)), false) => h.violate("C06", "get_equals_model", "phantom_group", format!("get_consumer_group returned {}:{} which the model does not have", d.id, d.name)),
+                    (Ok(None), true) => h.violate("C06", "get_equals_model", "group_missing", format!("get_consumer_group {group:?} found nothing")),
+                    (Err(e), true) => h.violate("C06", "get_equals_model", "group_error", format!("get_consumer_group {group:?} failed: {e:?}")),
+                }
+            }
+        }
+        Op::Ping { c } => {
+            if let Some(client) = h.clients.get(*c).and_then(|x| x.as_ref()) {
+                let result = client.ping().await;
+                if result.is_ok() {
+                    let now = h.sim.now_micros();
+                    h.last_ping.insert(*c, now);
+                } else if h.model.sessions[*c].connected {
+                    h.violate("C09", "ping_always_allowed", "ping_refused", format!("ping on connection {c} failed: {:?}", result.err()));
+                }
+            }
+        }
+        other => crate::harness_auth::step_auth(h, other).await,
+    }
+}
+
+async fn create_group(h: &mut Harness, c: usize, stream: &IdRef, topic: &IdRef, id: Option<u32>, name: &str) {
+    if !ready(h, c) {
+        return;
+    }
+    let result = h.clients[c].as_ref().unwrap().create_consumer_group(&stream.to_identifier(), &topic.to_identifier(), name, id).await;
+    if !h.perm_gate("create_consumer_group", result.is_ok(), result.as_ref().err()) {
+        return;
+    }
+    let ids = h.model.topic_ids(stream, topic);
+    let (name_taken, id_taken) = match h.model.topic(stream, topic) {
+        Some(t) => (t.groups.values().any(|g| g.name == name), id.map(|i| t.groups.contains_key(&i)).unwrap_or(false)),
+        None => (false, false),
+    };
+    let expect_ok = ids.is_some() && !name.is_empty() && name.len() <= 255 && id != Some(0) && !name_taken && !id_taken;
+    if expect_ok && result.is_err() {
+        h.violate("C06", "valid_command_fails", format!("create_group:{}", result.as_ref().err().map(|e| e.as_string()).unwrap_or_default()), format!("valid create_consumer_group failed: {:?}", result.as_ref().err()));
+    } else if !expect_ok && result.is_ok() {
+        h.violate("C06", "invalid_command_refused", "create_group", format!("invalid create_consumer_group {name}/{id:?} accepted"));
+    }
+    if let (Ok(details), Some((sid, tid))) = (result, ids) {
+        *h.stats.ops_ok.entry("create_group").or_insert(0) += 1;
+        if let Some(i) = id {
+            if details.id != i {
+                h.violate("C06", "create_returns_requested_id", "group", format!("asked group id {i}, got {}", details.id));
+            }
+        }
+        let t = h.model.streams.get_mut(&sid).unwrap().topics.get_mut(&tid).unwrap();
+        if t.groups.contains_key(&details.id) {
+            h.violate("C06", "ids_unique", "group_id_reused", format!("new group got id {} of a live group", details.id));
+            return;
+        }
+        t.groups.insert(details.id, MGroup { id: details.id, name: name.to_string(), members: Vec::new() });
+    }
+}
+
+async fn delete_group(h: &mut Harness, c: usize, stream: &IdRef, topic: &IdRef, group: &IdRef) {
+    if !ready(h, c) {
+        return;
+    }
+    let result = h.clients[c].as_ref().unwrap().delete_consumer_group(&stream.to_identifier(), &topic.to_identifier(), &group.to_identifier()).await;
+    if !h.perm_gate("delete_consumer_group", result.is_ok(), result.as_ref().err()) {
+        return;
+    }
+    let target = h.model.topic_ids(stream, topic).and_then(|(s, t)| Model::group_id(&h.model.streams[&s].topics[&t], group).map(|g| (s, t, g)));
+    if target.is_some() && result.is_err() {
+        h.violate("C06", "valid_command_fails", "delete_group", format!("valid delete_consumer_group failed: {:?}", result.as_ref().err()));
+    } else if target.is_none() && result.is_ok() {
+        h.violate("C06", "invalid_command_refused", "delete_group", "delete of an unknown consumer group accepted");
+    }
+    if let (Ok(()), Some((sid, tid, gid))) = (result, target) {
+        let t = h.model.streams.get_mut(&sid).unwrap().topics.get_mut(&tid).unwrap();
+        t.groups.remove(&gid);
+        // stored offsets of the group vanish with it
+        for p in t.partitions.values_mut() {
+            p.group_offsets.remove(&gid);
+        }
+        h.rotation.retain(|k, _| !(k.0 == sid && k.1 == tid && k.2 == gid));
+        *h.stats.ops_ok.entry("delete_group").or_insert(0) += 1;
+    }
+}
+
+async fn learn_client_id(h: &mut Harness, c: usize) -> Option<u32> {
+    if let Some(id) = h.model.sessions[c].client_id {
+        return Some(id);
+    }
+    let me = h.clients[c].as_ref()?.get_me().await.ok()?;
+    h.model.sessions[c].client_id = Some(me.client_id);
+    Some(me.client_id)
+}
+
+async fn join_group(h: &mut Harness, c: usize, stream: &IdRef, topic: &IdRef, group: &IdRef) {
+    if !ready(h, c) {
+        return;
+    }
+    let Some(client_id) = learn_client_id(h, c).await else { return };
+    let result = h.clients[c].as_ref().unwrap().join_consumer_group(&stream.to_identifier(), &topic.to_identifier(), &group.to_identifier()).await;
+    if !h.perm_gate("join_consumer_group", result.is_ok(), result.as_ref().err()) {
+        return;
+    }
+    let target = h.model.topic_ids(stream, topic).and_then(|(s, t)| Model::group_id(&h.model.streams[&s].topics[&t], group).map(|g| (s, t, g)));
+    if target.is_some() && result.is_err() {
+        h.violate("C06", "valid_command_fails", "join_group", format!("valid join_consumer_group failed: {:?}", result.as_ref().err()));
+    } else if target.is_none() && result.is_ok() {
+        h.violate("C06", "invalid_command_refused", "join_group", "join of an unknown consumer group accepted");
+    }
+    if let (Ok(()), Some((sid, tid, gid))) = (result, target) {
+        let g = h.model.streams.get_mut(&sid).unwrap().topics.get_mut(&tid).unwrap().groups.get_mut(&gid).unwrap();
+        if !g.members.contains(&client_id) {
+            g.members.push(client_id);
+        }
+        h.rotation.retain(|k, _| !(k.0 == sid && k.1 == tid && k.2 == gid));
+        *h.stats.ops_ok.entry("join_group").or_insert(0) += 1;
+        check_groups_of_topic(h, c, sid, tid).await;
+    }
+}
+
+async fn leave_group(h: &mut Harness, c: usize, stream: &IdRef, topic: &IdRef, group: &IdRef) {
+    if !ready(h, c) {
+        return;
+    }
+    let Some(client_id) = learn_client_id(h, c).await else { return };
+    let result = h.clients[c].as_ref().unwrap().leave_consumer_group(&stream.to_identifier(), &topic.to_identifier(), &group.to_identifier()).await;
+    if !h.perm_gate("leave_consumer_group", result.is_ok(), result.as_ref().err()) {
+        return;
+    }
+    let target = h.model.topic_ids(stream, topic).and_then(|(s, t)| Model::group_id(&h.model.streams[&s].topics[&t], group).map(|g| (s, t, g)));
+    if let Some((sid, tid, gid)) = target {
+        let was_member = h.model.streams[&sid].topics[&tid].groups[&gid].members.contains(&client_id);
+        if was_member && result.is_err() {
+            h.violate("C06", "valid_command_fails", "leave_group", format!("leave by a member failed: {:?}", result.as_ref().err()));
+        }
+        if result.is_ok() {
+            let g = h.model.streams.get_mut(&sid).unwrap().topics.get_mut(&tid).unwrap().groups.get_mut(&gid).unwrap();
+            g.members.retain(|m| *m != client_id);
+            h.rotation.retain(|k, _| !(k.0 == sid && k.1 == tid && k.2 == gid));
+            *h.stats.ops_ok.entry("leave_group").or_insert(0) += 1;
+        }
+        check_groups_of_topic(h, c, sid, tid).await;
+    }
+}
+
+/// A connection went away (closed, evicted): the model forgets its memberships everywhere.
+pub fn forget_client(h: &mut Harness, client_id: u32) {
+    for s in h.model.streams.values_mut() {
+        for t in s.topics.values_mut() {
+            for g in t.groups.values_mut() {
+                g.members.retain(|m| *m != client_id);
+            }
+        }
+    }
+    h.rotation.clear();
+}
+
+/// C08: the assignment invariants of every group of a topic, from `get_consumer_group`.
+pub async fn check_groups_of_topic(h: &mut Harness, c: usize, sid: u32, tid: u32) {
+    let Some(client) = h.clients.get(c).and_then(|x| x.as_ref()) else { return };
+    let s = IdRef::Num(sid).to_identifier();
+    let t = IdRef::Num(tid).to_identifier();
+    let listing = client.get_consumer_groups(&s, &t).await;
+    let topic = h.model.streams[&sid].topics[&tid].clone();
+    match listing {
+        Ok(list) => {
+            let mut got: Vec<(u32, String)> = list.iter().map(|g| (g.id, g.name.clone())).collect();
+            got.sort();
+            let want: Vec<(u32, String)> = topic.groups.values().map(|g| (g.id, g.name.clone())).collect();
+            if got != want {
+                h.violate("C06", "get_equals_model", "groups_listing", format!("groups of {sid}/{tid}: {got:?} vs model {want:?}"));
+            }
+        }
+        Err(e) => h.violate("C06", "get_equals_model", "groups_error", format!("get_consumer_groups of {sid}/{tid} failed: {e:?}")),
+    }
+    let partitions: BTreeSet<u32> = topic.partitions.keys().copied().collect();
+    for g in topic.groups.values() {
+        let client = h.clients[c].as_ref().unwrap();
+        let details = match client.get_consumer_group(&s, &t, &IdRef::Num(g.id).to_identifier()).await {
+            Ok(Some(d)) => d,
+            Ok(None) => {
+                h.violate("C06", "get_equals_model", "group_missing", format!("group {} of {sid}/{tid} not found", g.id));
+                continue;
+            }
+            Err(e) => {
+                h.violate("C06", "get_equals_model", "group_error", format!("group {} of {sid}/{tid}: {e:?}", g.id));
+                continue;
+            }
+        };
+        h.stats.probe("group_assignment_checked");
+        let mut members: Vec<u32> = details.members.iter().map(|m| m.id).collect();
+        members.sort();
+        let mut want_members = g.members.clone();
+        want_members.sort();
+        if members != want_members {
+            h.violate("C08", "members_equal_model", if members.len() > want_members.len() { "stale_member" } else { "member_missing" }, format!("group {}/{}/{}: members {members:?}, model {want_members:?}", sid, tid, g.id));
+            continue;
+        }
+        if details.members_count as usize != details.members.len() {
+            h.violate("C08", "members_equal_model", "members_count_field", format!("group {}: members_count {} vs {} listed", g.id, details.members_count, details.members.len()));
+        }
+        if details.partitions_count != partitions.len() as u32 {
+            h.violate("C08", "group_tracks_partition_count", "partitions_count", format!("group {}/{}/{} thinks the topic has {} partitions, it has {}", sid, tid, g.id, details.partitions_count, partitions.len()));
+        }
+        if members.is_empty() {
+            continue;
+        }
+        let mut seen: BTreeMap<u32, u32> = BTreeMap::new();
+        let mut shares: Vec<usize> = Vec::new();
+        for m in &details.members {
+            shares.push(m.partitions.len());
+            if m.partitions_count as usize != m.partitions.len() {
+                h.violate("C08", "members_equal_model", "member_partitions_count_field", format!("member {}: partitions_count {} vs {:?}", m.id, m.partitions_count, m.partitions));
+            }
+            for p in &m.partitions {
+                if let Some(other) = seen.insert(*p, m.id) {
+                    h.violate("C08", "exclusive_assignment", "partition_assigned_twice", format!("group {}/{}/{}: partition {p} assigned to members {other} and {}", sid, tid, g.id, m.id));
+                }
+                if !partitions.contains(p) {
+                    h.violate("C08", "exclusive_assignment", "unknown_partition_assigned", format!("group {}/{}/{}: member {} holds partition {p}, topic has {partitions:?}", sid, tid, g.id, m.id));
+                }
+            }
+        }
+        for p in &partitions {
+            if !seen.contains_key(p) {
+                h.violate("C08", "exclusive_assignment", "partition_unassigned", format!("group {}/{}/{}: partition {p} is assigned to nobody ({} members)", sid, tid, g.id, members.len()));
+            }
+        }
+        let max = shares.iter().max().copied().unwrap_or(0);
+        let min = shares.iter().min().copied().unwrap_or(0);
+        if max - min > 1 {
+            h.violate("C08", "even_assignment", "shares_differ_by_more_than_one", format!("group {}/{}/{}: shares {shares:?}", sid, tid, g.id));
+        }
+        if members.len() > partitions.len() {
+            h.stats.probe("more_members_than_partitions");
+        }
+        if members.len() >= 2 {
+            h.stats.probe("group_with_two_or_more_members");
+        }
+    }
+}
 
 #[allow(clippy::too_many_arguments)]
-pub async fn poll_as_group(_h: &mut Harness, _c: usize, _sid: u32, _tid: u32, _partition: Option<u32>, _g: &IdRef, _kind: &PollKind, _count: u32, _auto_commit: bool, _result: Result<PolledMessages, IggyError>) {}
+pub async fn poll_as_group(h: &mut Harness, c: usize, sid: u32, tid: u32, partition: Option<u32>, g: &IdRef, kind: &PollKind, count: u32, auto_commit: bool, result: Result<PolledMessages, IggyError>) {
+    let topic = h.model.streams[&sid].topics[&tid].clone();
+    let Some(gid) = Model::group_id(&topic, g) else {
+        if result.is_ok() {
+            h.violate("C08", "poll_unknown_group", "accepted", format!("poll as unknown group {g:?} succeeded"));
+        }
+        return;
+    };
+    let Some(client_id) = learn_client_id(h, c).await else { return };
+    let is_member = topic.groups[&gid].members.contains(&client_id);
+    let p = match partition {
+        Some(p) => {
+            if !topic.partitions.contains_key(&p) {
+                return;
+            }
+            p
+        }
+        None => {
+            if !is_member {
+                if result.is_ok() {
+                    h.violate("C08", "only_members_are_served", "non_member_served", format!("client {client_id} is not a member of group {gid} but its poll succeeded"));
+                }
+                return;
+            }
+            // the share of this member, as the server reports it
+            let details = h.clients[c].as_ref().unwrap().get_consumer_group(&IdRef::Num(sid).to_identifier(), &IdRef::Num(tid).to_identifier(), &IdRef::Num(gid).to_identifier()).await;
+            let share: Vec<u32> = match details {
+                Ok(Some(d)) => d.members.iter().find(|m| m.id == client_id).map(|m| m.partitions.clone()).unwrap_or_default(),
+                _ => return,
+            };
+            let Ok(polled) = &result else {
+                h.violate("C08", "member_poll_ok", "error", format!("poll by member {client_id} of group {gid} failed: {:?}", result.as_ref().err()));
+                return;
+            };
+            if share.is_empty() {
+                if !polled.messages.is_empty() {
+                    h.violate("C08", "served_only_from_own_share", "member_without_partitions_served", format!("member {client_id} has no partition but got {} messages from {}", polled.messages.len(), polled.partition_id));
+                }
+                h.stats.probe("member_without_partitions_polled");
+                return;
+            }
+            if !share.contains(&polled.partition_id) {
+                h.violate("C08", "served_only_from_own_share", "foreign_partition", format!("member {client_id} of group {gid} holds {share:?} but was served from partition {}", polled.partition_id));
+                return;
+            }
+            // rotation: within any |share| consecutive polls every partition of the share appears once
+            let key = (sid, tid, gid, client_id);
+            let history = h.rotation.entry(key).or_default();
+            history.push(polled.partition_id);
+            let n = share.len();
+            if history.len() >= n {
+                let window = &history[history.len() - n..];
+                let distinct: BTreeSet<u32> = window.iter().copied().collect();
+                if distinct.len() != n {
+                    let w = window.to_vec();
+                    h.violate("C08", "share_visited_in_turn", "partition_skipped_or_repeated", format!("member {client_id} of group {gid} with share {share:?} was served {w:?} in its last {n} polls"));
+                } else if n >= 2 {
+                    h.stats.probe("rotation_window_checked");
+                }
+            }
+            polled.partition_id
+        }
+    };
+    let Ok(polled) = result else {
+        if partition.is_some() {
+            h.violate("C02", "poll_fails", "group_error", format!("poll as group {gid} on partition {p} failed: {:?}", result.err()));
+        }
+        return;
+    };
+    *h.stats.ops_ok.entry("poll").or_insert(0) += 1;
+    let stored = h.model.streams[&sid].topics[&tid].partitions[&p].group_offsets.get(&gid).copied();
+    h.judge_poll(sid, tid, p, kind, count, stored, &polled, "group_poll");
+    if matches!(kind, PollKind::Next) && auto_commit && !polled.messages.is_empty() {
+        h.stats.probe("group_next_autocommit_served");
+    }
+    if auto_commit {
+        if let Some(last) = polled.messages.last() {
+            h.pm(sid, tid, p).group_offsets.insert(gid, last.offset);
+        }
+    }
+}
 
-pub async fn after_background_job(_h: &mut Harness, _job: Job) {}
+pub async fn after_background_job(h: &mut Harness, job: Job) {
+    if job == Job::VerifyHeartbeats {
+        crate::harness_auth::after_heartbeat_verification(h).await;
+    } else if job == Job::CleanTokens {
+        crate::harness_auth::after_token_cleaning(h).await;
+    }
+}
 
-/// Stored offsets of every identity the model knows, read back and compared.
+/// Stored offsets of every identity the model knows, read back and compared; group invariants.
 pub async fn audit_topic_groups_and_offsets(h: &mut Harness, sid: u32, tid: u32) {
-    let parts: Vec<(u32, Vec<(u32, u64)>, Vec<(u32, u64)>, u64)> = h.model.streams[&sid].topics[&tid]
+    let parts: Vec<(u32, Vec<(u32, u64)>, Vec<(u32, u64)>, bool)> = h.model.streams[&sid].topics[&tid]
         .partitions
         .values()
-        .map(|p| (p.id, p.consumer_offsets.iter().map(|(k, v)| (*k, *v)).collect(), p.group_offsets.iter().map(|(k, v)| (*k, *v)).collect(), p.current_offset()))
+        .map(|p| (p.id, p.consumer_offsets.iter().map(|(k, v)| (*k, *v)).collect(), p.group_offsets.iter().map(|(k, v)| (*k, *v)).collect(), p.tainted))
         .collect();
     let s = IdRef::Num(sid).to_identifier();
     let t = IdRef::Num(tid).to_identifier();
-    for (p, consumers, groups, _current) in parts {
+    for (p, consumers, groups, tainted) in parts {
+        if tainted {
+            continue;
+        }
         for (key, value) in consumers {
             let got = h.clients[0].as_ref().unwrap().get_consumer_offset(&Consumer::new(IdRef::Num(key).to_identifier()), &s, &t, Some(p)).await;
             let got = got.ok().flatten().map(|i| i.stored_offset);
@@ -40,6 +391,9 @@ pub async fn audit_topic_groups_and_offsets(h: &mut Harness, sid: u32, tid: u32)
             }
         }
     }
+    check_groups_of_topic(h, 0, sid, tid).await;
 }
 
-pub async fn audit_users(_h: &mut Harness) {}
+pub async fn audit_users(h: &mut Harness) {
+    crate::harness_auth::audit_users(h).await;
+}
